@@ -39,6 +39,8 @@ enum Dev {
     Id(usize, usize),
     /// aggregators `a` and `b` are handed each other's share
     Swap(usize, usize),
+    /// aggregator `a` uses a different context string only when combining verifier shares and in verify_next
+    CtxLate(usize),
 }
 
 impl Dev {
@@ -59,6 +61,8 @@ struct Setup<'a, V> {
     n: usize,
     /// nonce bound at the client (joint randomness / Poplar1)
     nonce_bound: bool,
+    /// the steps after verify_init depend on the context string (Prio3 with joint randomness)
+    late_ctx_bound: bool,
 }
 
 #[allow(clippy::too_many_arguments)]
@@ -79,11 +83,13 @@ where
         if s.vdaf_alt_alg.is_some() {
             singles.push(Dev::Alg(a));
         }
-        for id in 0..n {
+        // other identifiers, including out-of-range ones whose low byte aliases a valid identifier
+        for id in (0..n).chain([n, 255, 256, 256 + a, 257, 65536 + a, usize::MAX]) {
             if id != a {
                 singles.push(Dev::Id(a, id));
             }
         }
+        singles.push(Dev::CtxLate(a));
         for b in a + 1..n {
             singles.push(Dev::Swap(a, b));
         }
@@ -115,7 +121,7 @@ where
     alt_vk2[0] ^= 0x10;
     for combo in &combos {
         for wire in [true, false] {
-            let mut envs: Vec<AggEnv<V, 32>> = (0..n).map(|i| AggEnv { vdaf: s.vdaf, verify_key: *vk, ctx: ctx.to_vec(), nonce: *nonce, agg_id: i, share_index: i }).collect();
+            let mut envs: Vec<AggEnv<V, 32>> = (0..n).map(|i| AggEnv { vdaf: s.vdaf, verify_key: *vk, ctx: ctx.to_vec(), nonce: *nonce, agg_id: i, share_index: i, ctx_late: None }).collect();
             // expectations: a combination is a mismatch if any member is; "consistent" substitutions
             // combined with a per-aggregator change of the same field are still mismatches
             let mut must_fail = false;
@@ -143,6 +149,7 @@ where
                     Dev::Alg(a) => envs[*a].vdaf = s.vdaf_alt_alg.unwrap(),
                     Dev::AlgAll => envs.iter_mut().for_each(|e| e.vdaf = s.vdaf_alt_alg.unwrap()),
                     Dev::Id(a, id) => envs[*a].agg_id = *id,
+                    Dev::CtxLate(a) => envs[*a].ctx_late = Some(alt_ctx.clone()),
                     Dev::Swap(a, b) => {
                         let t = envs[*a].share_index;
                         envs[*a].share_index = envs[*b].share_index;
@@ -160,7 +167,10 @@ where
             }
             // Expectation from the FINAL configuration (several departures may cancel or coincide):
             let _ = (&mut must_fail, &mut must_pass);
-            let ctx_ok = envs.iter().all(|e| e.ctx == ctx);
+            // a late context mismatch is only observable where the later steps use the context at all:
+            // Prio3 with joint randomness (seed derivation); Poplar1's later steps ignore it
+            let late_ok = envs.iter().all(|e| e.ctx_late.is_none()) || !s.late_ctx_bound;
+            let ctx_ok = envs.iter().all(|e| e.ctx == ctx) && late_ok;
             let key_ok = envs.iter().all(|e| e.verify_key == envs[0].verify_key);
             let nonce_agree = envs.iter().all(|e| e.nonce == envs[0].nonce);
             let nonce_ok = nonce_agree && (!s.nonce_bound || envs[0].nonce == *nonce);
@@ -171,9 +181,15 @@ where
             // sharded for the identifier it runs under)
             let mut ids: Vec<usize> = envs.iter().map(|e| e.agg_id).collect();
             ids.sort();
-            let roles_ok = ids == (0..n).collect::<Vec<_>>() && envs.iter().all(|e| enc[e.share_index] == enc[e.agg_id]);
+            let roles_ok = ids == (0..n).collect::<Vec<_>>() && envs.iter().all(|e| e.agg_id < n && enc[e.share_index] == enc[e.agg_id]);
             let must_fail = !(ctx_ok && key_ok && nonce_ok && alg_ok && roles_ok);
             let must_pass = !must_fail;
+            // a context switched only for the later steps is judged where those steps bind the context
+            // (joint randomness); elsewhere an aggregator that is inconsistent with itself is outside
+            // the statement
+            if !s.late_ctx_bound && combo.iter().any(|d| matches!(d, Dev::CtxLate(_))) {
+                continue;
+            }
             if combo.len() > 1 && must_pass {
                 continue; // departures cancelled out; equivalent to the baseline or a single consistent substitution
             }
@@ -190,8 +206,9 @@ where
                 Dev::KeyAll => "key_all",
                 Dev::Alg(_) => "alg",
                 Dev::AlgAll => "alg_all",
-                Dev::Id(a, id) => if *a == 0 { "leader_under_helper_id" } else if *id == 0 { "helper_under_leader_id" } else { "helper_under_other_helper_id" },
+                Dev::Id(a, id) => if *id >= n { "id_out_of_range" } else if *a == 0 { "leader_under_helper_id" } else if *id == 0 { "helper_under_leader_id" } else { "helper_under_other_helper_id" },
                 Dev::Swap(..) => "swap",
+                Dev::CtxLate(_) => "ctx_late",
             }).collect::<Vec<_>>().join("+");
             let case = json!({"instance": s.name, "mismatch": label, "mode": if wire { "wire" } else { "direct" }, "aggregators": n});
             match res {
@@ -249,7 +266,7 @@ where
             let vk: [u8; 32] = tape.array(3);
             let random = tape.bytes(4, if jr { 2 * na as usize * 32 } else { na as usize * 32 });
             let (ps, shares) = vdaf.shard_with_random(&ctx, m, &nonce, &random).unwrap();
-            let s = Setup { name: format!("{}/aggs={na}", case.name), vdaf: &vdaf, vdaf_alt_alg: Some(&alt), n: na as usize, nonce_bound: jr };
+            let s = Setup { name: format!("{}/aggs={na}", case.name), vdaf: &vdaf, vdaf_alt_alg: Some(&alt), n: na as usize, nonce_bound: jr, late_ctx_bound: jr };
             let mut honest = None;
             matrix(run, &s, &(), &ps, &shares, &ctx, &nonce, &vk, pairs, &mut honest);
         }
@@ -280,7 +297,7 @@ fn poplar_case(run: &Run, bits: usize, tapes: &[(String, Tape)], pairs: bool) {
                 std::mem::swap(&mut on, &mut sib);
             }
             let ap = Poplar1AggregationParam::try_from_prefixes(vec![IdpfInput::from_bools(&on), IdpfInput::from_bools(&sib)]).unwrap();
-            let s = Setup { name: format!("Poplar1(bits={bits})/level={level}"), vdaf: &vdaf, vdaf_alt_alg: None, n: 2, nonce_bound: true };
+            let s = Setup { name: format!("Poplar1(bits={bits})/level={level}"), vdaf: &vdaf, vdaf_alt_alg: None, n: 2, nonce_bound: true, late_ctx_bound: false };
             let mut honest = None;
             matrix(run, &s, &ap, &ps, &shares, &ctx, &nonce, &vk, pairs, &mut honest);
         }
@@ -305,6 +322,9 @@ fn main() {
     prio3_case(&run, &histogram_case::<Field128>(5, 2), &aggs, 2, &tapes, pairs);
     prio3_case(&run, &multihot_case::<Field128>(4, 2, 3), &aggs, 1, &tapes, pairs);
     prio3_case(&run, &l1_case::<Field128>(3, 2, 3), &aggs, 1, &tapes, pairs);
+    // exactly one joint-randomness element (whole encoding in one chunk)
+    prio3_case(&run, &histogram_case::<Field128>(4, 4), &aggs, 1, &tapes, pairs);
+    prio3_case(&run, &sumvec_case::<Field128>(1, 4, 4), &[2], 2, &tapes, pairs);
     for bits in if q { vec![1usize, 2, 4, 9] } else { vec![1, 2, 3, 4, 9, 33, 65] } {
         poplar_case(&run, bits, &tapes, pairs);
     }
